@@ -174,7 +174,7 @@ pub fn corr(dir: &str, seed: u64, tier: &str) -> Report {
     }
     // (b5) dollar-quote grid: tag x body x closer
     for tag in ["", "a", "ab", "_1", "é"] {
-        for body in ["", "x", "$", "$a", "$a$", "$ab", "x$a$y", "$$", "a$", "$ab$", "\n", "$é", "x$a$ab$", "$$$"] {
+        for body in ["", "x", "$", "$a", "$a$", "$ab", "x$a$y", "$$", "a$", "$ab$", "\n", "$é", "x$a$ab$", "$$$", "x$a", "x$abc"] {
             for closer in [format!("${tag}$"), String::new(), format!("${tag}"), "$".to_string()] {
                 let text = format!("${tag}${body}{closer}{}", if rng.chance(1, 3) { " z" } else { "" });
                 let n = if thorough { 6 } else { 2 };
